@@ -36,7 +36,7 @@ UNIT = {
     'types': {'StringRef': 'strref', 'KeyType': 'keyt', 'core::KeyType': 'keyt'},
     'by_value': ['strref'], 'by_pointer': ['keyt'],
     'calls': {'m:@keyt::data': 'keyt_data', 'm:@keyt::size': 'keyt_size', 'fn:memcpy': 'verif_memcpy4',
-              'c:StringRef(const char *, size_t)': 'strref_make'},
+              'c:StringRef(const char *, size_t)': 'strref_make', 'c:StringRef(const char *)': 'strref_cstr_any'},
     'prelude': '#include "models/base.h"\n#include "models/buildkey.h"\n',
     'functions': dict({
         'BuildKey::kindForIdentifier': {
